@@ -301,3 +301,17 @@ def check_tie(res, case, o, base, rule, acts, pos, tied, chosen, trank, round_sn
         res.fail('tie-how', 'tie-how|' + base, 'tie resolved "%s", expected "%s"' % (tie['how'], how))
     if how == 'prior stage':
         res.tag('scotland-prior-stage')
+
+
+# ---- thorough tier: exhaustive small scope (enumeration inside the same harness and oracle)
+EXTRA_EXHAUSTIVE = {'quick': False, 'thorough': False}     # the small scope is complete; the generated part is a sample
+
+
+def extra_chunks(tier, seed):
+    from .. import smallscope
+    return smallscope.chunks(model.ALL_RULES) if tier == 'thorough' else []
+
+
+def extra_cases(tier, seed, chunk):
+    from .. import smallscope
+    return smallscope.cases(chunk, decorate=lambda c: dict(c, tie2=list(range(c['ncand'], 0, -1))))
